@@ -222,3 +222,14 @@ def canon_iter(pv, c, fnode):
                 it = n.iter
     st = pv.stmt_of(it)
     return pv.canon(it, st) if st is not None else ast.unparse(it)
+
+def entity_bytes_name(ix):
+    """name of the Entity method whose result Path.__hash__ folds in for every entity (`e._bytes()` today)"""
+    import re as _re
+    from .accum import contributions
+    h = ix.func("trimesh.path.path:Path.__hash__")
+    for c in contributions(h.node):
+        m = _re.fullmatch(r"\[?_1\.(\w+)\(\)\]?", c.elt)
+        if c.iter == "self.entities" and m:
+            return m.group(1)
+    return "_bytes"
